@@ -149,6 +149,8 @@ def _idx_facts(rows, idx):
 
 @contract(f"{M}.find_overlaps", properties=("C12", "C18", "C07"))
 class _:
+    # C07 only needs "no terminal gap" of this contract: a lost obligation is reported for C12 and C18
+    escalate = ("C12", "C18")
     params = {"self": IA, "bait": FRAG}
     result = TOpt(TRef("OverlapResult"))
 
